@@ -305,7 +305,7 @@ run_fuzzshift = fuzzrun.make_runner("c02", "VERIF_FUZZMAPS", MAPS_CORPUS, max_le
 def subs(tier):
     return [
         Sub("fuzzshift", st.just({}), run_fuzzshift, quick=1, thorough=1, needs=("fuzzmaps",),
-                enum=lambda t: fuzzrun.campaigns(t, 12000, 600000), max_wall={"quick": 400, "thorough": 3000}),
+                enum=lambda t: fuzzrun.campaigns(t, 12000, 250000), max_wall={"quick": 400, "thorough": 3000}),
             Sub("weights", weights_cases(), run_weights, quick=5120, thorough=4096, enum=weights_enum),
         Sub("shift", shift_cases(), run_shift, quick=7500, thorough=60000),
         Sub("poly", poly_cases(), run_poly, quick=7500, thorough=60000),
